@@ -600,7 +600,7 @@ def enumerate_pairs(desc, oracle):
 
 
 # ----------------------------------------------------------------------------------------------- the error limit under preemption
-def run_fail_limit(max_errors, k, W, sched, seed, ncalls=12, hold="quiescent"):
+def run_fail_limit(max_errors, k, W, sched, seed, ncalls=12, hold="quiescent", shape="independent"):
     """ncalls independent calls that all raise; TA = the worker whose call is the (max_errors+1)-th failure, i.e. the one that crosses the
     limit. It is held at the k-th instruction of its failure bookkeeping; the calls that fail later were waiting inside their functions for
     that moment. However long TA is preempted there, at most max_errors + W calls may fail in the run."""
@@ -609,26 +609,60 @@ def run_fail_limit(max_errors, k, W, sched, seed, ncalls=12, hold="quiescent"):
     from . import ir as irmod, plainrun, rec
 
     ir = irmod.IR()
-    calls = [ir.add("call", fname=f"f{i}") for i in range(ncalls)]
+    slow_ok = None
+    holder = {}
+    if shape == "inflight":
+        # exactly max_errors + 1 failing source calls, and a call that is IN FLIGHT when the limit is crossed, succeeds afterwards and
+        # releases a dozen failing dependents: none of them may start any more
+        # (a chain T0 -> T1 -> ... of succeeding calls, T0 being the one in flight, each with a failing side branch D_i; T_{i+1} lasts until D_i
+        # has failed - so every link that still executes adds one more failure)
+        calls = [ir.add("call", fname=f"f{i}") for i in range(max_errors + 1)]
+        slow_ok = ir.add("call", fname="slow_ok")
+        chain_t, side_d = [slow_ok], []
+        for i in range(8):
+            side_d.append(ir.add("call", fname=f"d{i}", args=[irmod.ref(chain_t[-1].id)]))
+            chain_t.append(ir.add("call", fname=f"t{i + 1}", args=[irmod.ref(chain_t[-1].id)]))
+        calls = calls + chain_t + side_d
+        waits_for = {chain_t[i + 1].id: side_d[i].id for i in range(8)}
+        side_ids = {d.id for d in side_d}
+    else:
+        calls = [ir.add("call", fname=f"f{i}") for i in range(ncalls)]
     ir.output = irmod.X("list", [irmod.ref(c.id) for c in calls])
-    ir.meta["family"] = "preempt:fail_limit"
+    ir.meta["family"] = "preempt:fail_limit:" + shape
     OP = OnePreemption(k, W - 1, hold=hold)
     order = {"n": 0}
     lock = threading.Lock()
 
     def pre(nid, att):
+        if slow_ok is not None and nid == slow_ok.id:
+            OP.harness_wait(OP.ta_done.is_set, 2.0)
+            time.sleep(0.005)
+            return
+        if slow_ok is not None and nid in waits_for:
+            end = time.monotonic() + 0.3
+            while time.monotonic() < end and waits_for[nid] not in holder["R"].H.raised:
+                time.sleep(0.0005)
+            return
+        if slow_ok is not None and nid in side_ids:
+            raise rec.InjectedError(f"side branch n{nid} fails")
+        if slow_ok is not None and nid < slow_ok.id:
+            # the failing source calls wait (bounded) until the slow call is in flight
+            end = time.monotonic() + 0.5
+            while time.monotonic() < end and slow_ok.id not in holder["R"].H.attempts:
+                time.sleep(0.0005)
         with lock:
             order["n"] += 1
             idx = order["n"]
         if idx == max_errors + 1:
             OP.arm()
-        elif idx > max_errors + 1:
+        elif idx > max_errors + 1 and slow_ok is None:
             OP.harness_wait(lambda: OP.ta_paused.is_set() or OP.ta_done.is_set(), 2.0)
         raise rec.InjectedError(f"failure #{idx} (n{nid})")
 
     desc = {"seed": seed, "n": ncalls, "W": W, "sched": sched, "perturb": "none", "delays": "none", "max_errors": max_errors}
     with OP:
         def before_run(R_):
+            holder["R"] = R_
             if R_.hang_drv is not None and R_.hang_drv.thread is not None:
                 OP.skip_native.add(R_.hang_drv.thread.native_id)
 
@@ -640,6 +674,7 @@ def enumerate_fail_limit(desc):
     import hashlib
 
     me, W, sched, ncalls = desc["max_errors"], desc["W"], desc["sched"], desc.get("ncalls", 12)
+    shape = desc.get("shape", "independent")
 
     def oracle(R):
         failed = len(R.H.raised)
@@ -649,7 +684,7 @@ def enumerate_fail_limit(desc):
             return "run returned normally although calls failed"
         return None
 
-    R, OP, ir = run_fail_limit(me, None, W, sched, desc["seed"], ncalls)
+    R, OP, ir = run_fail_limit(me, None, W, sched, desc["seed"], ncalls, shape=shape)
     N = OP.count
     if N == 0:
         return {"status": "inconclusive", "detail": "error-limit preemption: the limit-crossing worker executed no monitored instruction"}
@@ -659,18 +694,18 @@ def enumerate_fail_limit(desc):
     witness = None
     if bad is None:
         for k in range(1, N + 1):
-            R, OP, ir = run_fail_limit(me, k, W, sched, desc["seed"] + k, ncalls)
+            R, OP, ir = run_fail_limit(me, k, W, sched, desc["seed"] + k, ncalls, shape=shape)
             counters["preempt_errlimit_positions"] += 1
             if OP.held_at is not None:
                 points.add(f"{OP.held_at[0]}@{OP.held_at[1]}")
                 counters["preempt_errlimit_holds_others_went_on" if len(R.H.raised) > me + 1 else "preempt_errlimit_holds_in_critical_section"] += 1
             bad = oracle(R)
             if bad:
-                bad = f"[the worker whose failure crossed the limit held at its instruction #{k} of {N} ({OP.held_at}) until the rest of the process was quiescent; {sched}] {bad}"
+                bad = f"[the worker whose failure crossed the limit held at its instruction #{k} of {N} ({OP.held_at}) until the rest of the process was quiescent; {sched}; {shape}] {bad}"
                 witness = {"history": R.H.compact_history(120), "k": k, "held_at": OP.held_at}
                 break
     res = {"status": "ok", "counters": counters, "sets": {"preempt_errlimit_points_held": sorted(points)}, "nontrivial": counters["preempt_errlimit_holds_others_went_on"] > 0,
-           "sig": hashlib.sha1(f"errlimit|{me}|{W}|{sched}".encode()).hexdigest()[:16], "sample": {"desc": desc, "positions_N": N}}
+           "sig": hashlib.sha1(f"errlimit|{me}|{W}|{sched}|{shape}".encode()).hexdigest()[:16], "sample": {"desc": desc, "positions_N": N}}
     if bad:
         res.update(status="violation", detail=bad, mechanism="limits-errors", witness=witness)
     return res
